@@ -188,4 +188,6 @@ def run(chk, ctx):
     r2(chk, ctx)
     r3(chk, ctx, p, se)
     r4(chk, ctx, p, se)
+    from . import round3
+    round3.tidy_up_callers(chk, ctx)            # siblings are only torn down when their fan-out really failed
     chk.assume("given the decided clauses, whether a late sibling can still disturb the outcome depends on delivery order (not decided)")
